@@ -161,9 +161,10 @@ def exception_copy_safety(P: Program, rep: Report, rule: str):
 
 
 # ----------------------------------------------------------------------------- write_string never raises (C01.R7)
-def sample_library(it, P: Program):
-    """A Library holding one block of every class parsing can produce (values are unknown strings)."""
-    S = lambda tag: Unknown(tag, "str")
+def sample_library(it, P: Program, unknown_values=None):
+    """A Library holding one block of every class parsing can produce (values are unknown strings; with
+    ``unknown_values`` only the listed tags stay unknown, the others become representative constants)."""
+    S = lambda tag: Unknown(tag, "str") if (unknown_values is None or tag in unknown_values or not tag.startswith(("fval", "fv", "sval"))) else "{" + tag + "}"
     I = lambda tag: Unknown(tag, "int")
     lib = new_obj(it, P, "library", "Library")
     mk = lambda cls, *a, **k: new_obj(it, P, "model", cls, *a, **k)
@@ -230,3 +231,39 @@ def write_string_never_raises(P: Program, rep: Report, rule: str):
     rep.count("write_string_paths", stats["paths"])
     if not seen:
         rep.ok(rule, "write_string:all-paths-return", ws.loc, f"{n_ok} abstract paths, all return")
+
+
+def parse_stack_never_raises(P: Program, rep: Report, rule: str):
+    ps = P.func("middlewares.parsestack", "default_parse_stack")
+    seen = set()
+    n = 0
+
+    def run(ctx):
+        it = driver_interp(P, ctx, "middlewares.parsestack")
+        try:
+            lib, blocks = sample_library(it, P, unknown_values=("fval1", "sval"))
+        except (Raised, Unsupported) as e:
+            return ("setup", e)
+        try:
+            for m in it.iterate(call_func(it, ps)):
+                lib = call(it, m, "transform", lib)
+            return ("return", lib)
+        except Raised as r:
+            return ("raise", r)
+        except (Unsupported, LoopBound) as u:
+            return ("unsupported", str(u))
+    for ctx, (kind, v) in explore(run, 60000):
+        n += 1
+        if kind == "setup":
+            raise AnalysisError(f"{rule}: cannot build the sample library: {v!r}")
+        if kind == "unsupported":
+            raise AnalysisError(f"{rule}: analyser cannot follow the default parse stack: {v}")
+        if kind == "raise":
+            fi = func_of_node(P, v.node) if v.node is not None else None
+            key = f"parse-stack-raises:{v.cls_name()}|{fi.qualname if fi else ''}|{norm_stmt(v.node)[:70] if v.node is not None else ''}"
+            if key not in seen:
+                seen.add(key)
+                rep.fail(rule, key, raise_site(P, v), f"the default parse stack raises {v.cls_name()} ({v.exc!r}); assumptions: {ctx.assumed[-4:]}")
+    rep.count("parse_stack_paths", n)
+    if not seen:
+        rep.ok(rule, "parse-stack:all-paths-return", ps.loc, f"{n} abstract paths, all return")
